@@ -21,6 +21,18 @@ def run(chk):
         relay = {"case": rng.choice(["keep", "keep", "random", "lower"]), "rewrite_id": rng.random() < 0.5}
         fault = {"drop": rng.choice([0.0, 0.1, 0.3]), "dup": rng.choice([0.0, 0.2, 0.4]), "delay": rng.choice([0, 50, 800, 3000]), "ms": rng.choice([8000, 20000, 40000])}
         jobs.append((chk.seed * 1000 + k, cfg, relay, fault, 10 if thorough else 6, True, "integrity"))
+    # second batch: the same kind of world with the TRANSPARENT test compression (0x5a ++ bytes): a buffer that was reassembled wrongly is then
+    # not refused by inflate but written to the tun device, so mis-reassembly is directly visible (with the real zlib it needs crafted packet
+    # contents to pass); these runs are also the ones the Lean client and server models are diffed on.  Relays that change letter case get an
+    # autodetected / Base32 downstream codec (a FORCED case-sensitive codec through such a relay is C11's recorded finding, not C01's business).
+    nz = 64 if thorough else 16
+    for k in range(nz):
+        cfg = W.random_config(rng, {"raw_mode": 1} if k % 8 == 7 else None)
+        relay = {"case": rng.choice(["keep", "keep", "random", "lower"]), "rewrite_id": rng.random() < 0.5}
+        if relay["case"] != "keep" and cfg["downenc"] not in ("-", "T"):
+            cfg["downenc"] = "-"
+        fault = {"drop": rng.choice([0.0, 0.1, 0.3]), "dup": rng.choice([0.0, 0.2, 0.4, 0.7]), "delay": rng.choice([0, 50, 800, 3000]), "ms": rng.choice([8000, 20000, 40000])}
+        jobs.append((chk.seed * 1000 + 500 + k, cfg, relay, fault, 10 if thorough else 8, False, "integrity"))
     res = W.run_worlds(jobs)
     bad, frames, delivered, hs_ok = 0, 0, 0, 0
     for r in res:
@@ -41,7 +53,7 @@ def run(chk):
     chk.cov["distinct_nontrivial"] = delivered
     chk.cov["traces_validated_against_impl"] = len(res)
     chk.cov["partial"] = True
-    chk.cov["rule"] = ("%d world runs (real client + real server + real zlib): random configuration (7 query types x downstream codec forced or autodetected x autodetected upstream codec x "
+    chk.cov["rule"] = ("%d world runs (real client + real server; 3 of 5 with the real zlib, 2 of 5 with the transparent test compression, on which both Lean session models are diffed): random configuration (7 query types x downstream codec forced or autodetected x autodetected upstream codec x "
                        "hostname limit 100..255 x lazy/immediate x probed or fixed fragment size, raw UDP mode every 8th run), relay with id rewriting and per-character random case, "
                        "fault period of 8-40 s with drop up to 30%%, duplication up to 40%%, delay up to 3 s (reordering), then a clean suffix; packets of 0..9000 payload bytes offered "
                        "on both tun devices; non-trivial = frame written to a tun device (each compared with the set of frames offered on the peer)" % len(res))
@@ -49,8 +61,11 @@ def run(chk):
                       "unproved": "the composition over arbitrary fault schedules (delivered_is_sent_modulo_Z) relies on zlib rejecting mixed buffers; exercised here with the real zlib, not proved"})
     for r in res[:2]:
         chk.sample({"cfg": r["cfg"], "negotiated": r["negotiated"], "relay": r["relay"], "fault": r["fault"], "offered": len(r["sent_c"]) + len(r["sent_s"]), "delivered": len(r["tunw_s"]) + len(r["tunw_c"])})
-    # (no model diff here: these runs use the REAL zlib, the models use the transparent test compression; the client and server models are
-    #  diffed against the same harnesses in C02/C06/C11 and C03..C16)
+    # both session models against the code, on the transparent-compression runs (the real-zlib runs are skipped by the two functions)
+    zres = [r for r in res if not r.get("real_z")]
+    W.report_client_model(chk, zres, "C01")
+    W.report_server_model(chk, zres, "C01")
+    W.report_rseq(chk, "C01")
     if not chk.violations and not proof_ok:
         chk.violation("proof obligation no longer checks: " + chk.proof_detail,
                       ["# theorems of Props/C01.lean: " + ", ".join(vlib.prop_theorems("C01")), "# " + chk.proof_detail.replace("\n", "\n# ")], no_input=True)
